@@ -97,6 +97,11 @@ func (fr *Frame) execInstr(st *State, in ssa.Instruction) {
 		if a == nil {
 			a = &Addr{Kind: AObj, Ref: p.X}
 		}
+		if g := c.fieldGuard(a); g != nil {
+			fr.guardCheck(st, in, g, true, "store")
+		} else if a.Guard != nil {
+			fr.guardCheck(st, in, a.Guard, true, "elemstore")
+		}
 		c.storeAddr(st, a, derefType(x.Addr.Type()), fr.coerce(v, derefType(x.Addr.Type())))
 	case *ssa.UnOp:
 		fr.vals[x] = fr.execUnOp(st, x)
@@ -116,7 +121,7 @@ func (fr *Frame) execInstr(st *State, in ssa.Instruction) {
 		switch base.K {
 		case VSlice:
 			fr.checkSafe(st, in, "index", And(Le(Num(0), idx), Lt(idx, base.Len)))
-			fr.vals[x] = ptrVal(x.Type(), &Addr{Kind: AElem, Ref: base.Ref, IdxT: Add(base.Off, idx), ET: elemTypeOf(x.X.Type())})
+			fr.vals[x] = ptrVal(x.Type(), &Addr{Kind: AElem, Ref: base.Ref, IdxT: Add(base.Off, idx), ET: elemTypeOf(x.X.Type()), Guard: base.Guard})
 		default: // pointer to array
 			at := derefType(x.X.Type()).Underlying().(*types.Array)
 			fr.nonNil(st, in, base)
@@ -194,6 +199,7 @@ func (fr *Frame) execInstr(st *State, in ssa.Instruction) {
 		fr.vals[x] = fr.execLookup(st, x)
 	case *ssa.MapUpdate:
 		m := fr.get(st, x.Map)
+		fr.guardCheck(st, in, m.Guard, true, "mapupdate")
 		fr.checkSafe(st, in, "mapwrite", Neq(m.X, Num(0)))
 		mt := x.Map.Type().Underlying().(*types.Map)
 		c.mapSet(st, m.X, mt, fr.get(st, x.Key), fr.coerce(fr.get(st, x.Value), mt.Elem()))
@@ -203,7 +209,9 @@ func (fr *Frame) execInstr(st *State, in ssa.Instruction) {
 		e := deferEntry{call: x, guard: st.pc}
 		cc := x.Common()
 		if !cc.IsInvoke() {
-			if _, isB := cc.Value.(*ssa.Builtin); !isB {
+			if f, isF := cc.Value.(*ssa.Function); isF {
+				e.fnv = &Val{K: VScalar, T: f.Type(), X: fnID(f.RelString(nil)), Fn: &FuncVal{Fn: f}}
+			} else if _, isB := cc.Value.(*ssa.Builtin); !isB {
 				e.fnv = fr.get(st, cc.Value)
 			}
 		} else {
@@ -273,6 +281,11 @@ func (fr *Frame) execUnOp(st *State, x *ssa.UnOp) *Val {
 		a := v.Addr
 		if a == nil {
 			a = &Addr{Kind: AObj, Ref: v.X}
+		}
+		if g := c.fieldGuard(a); g != nil {
+			fr.guardCheck(st, x, g, false, "load")
+		} else if a.Guard != nil {
+			fr.guardCheck(st, x, a.Guard, false, "elemload")
 		}
 		return c.loadAddr(st, a, x.Type())
 	case token.NOT:
@@ -598,6 +611,7 @@ func (fr *Frame) execLookup(st *State, x *ssa.Lookup) *Val {
 		return scalar(x.Type(), SAt(m.X, k.X))
 	}
 	mt := x.X.Type().Underlying().(*types.Map)
+	fr.guardCheck(st, x, m.Guard, false, "lookup")
 	has := And(Neq(m.X, Num(0)), c.mapHas(st, m.X, mt, k))
 	v := c.mapGet(st, m.X, mt, k)
 	v = iteVal(has, v, zeroVal(mt.Elem()))
@@ -688,6 +702,7 @@ func (fr *Frame) execRange(st *State, x *ssa.Range) *Val {
 	// iterator token: for maps we keep a ghost "visited" set per Range instruction
 	it := Fresh("iter", SInt)
 	if _, ok := x.X.Type().Underlying().(*types.Map); ok {
+		fr.guardCheck(st, x, fr.get(st, x.X).Guard, false, "range")
 		vis := "v:" + fr.rangeKey(x)
 		st.hset(vis, App("emptyset", SArr(SInt, SBool)))
 		fr.rangeMaps[x] = fr.get(st, x.X)
@@ -724,6 +739,7 @@ func (fr *Frame) execNext(st *State, x *ssa.Next) *Val {
 		efail("Next without Range")
 	}
 	mt := rg.X.Type().Underlying().(*types.Map)
+	fr.guardCheck(st, x, m.Guard, false, "next")
 	vis := "v:" + fr.rangeKey(rg)
 	vs := st.hget(vis, SArr(SInt, SBool))
 	has, _, _ := mapNames(mt)
